@@ -1,15 +1,15 @@
 SPECIFICATION Spec
 CONSTANTS MaxOps = 2
-  Tails = {"", "low"}
-  MaxErr = 3
-  GScales <- ScalesAll
-  Targets <- TargetsAll
-  Share = FALSE
-  Patterns = {1, 2}
-VIEW view
+  Tails = {"low", "high"}
+  MaxErr = 2
+  GScales <- ScalesShare
+  Targets <- TargetsShare
+  Share = TRUE
+  Patterns = {1}
 PROPERTY ScaleExact
 PROPERTY UnknownScaleRaises
 PROPERTY GetScalePure
 PROPERTY RoundTrip
 PROPERTY TwinUntouched
+INVARIANT Emitted
 CHECK_DEADLOCK FALSE
